@@ -113,8 +113,8 @@ class World:
                 d = op["dec"]
                 if it["kind"] == "claim":
                     self.claims[d].append(it)
-                if it["pgn"] == 129029 and it["src"] == PROBE_SRC and len(it["data"]) >= 2 and (it["data"][0] & 0x1F) == 0:
-                    self.last_seq[d][(129029, PROBE_SRC, it["dest"])] = it["data"][0] >> 5
+                if it["src"] == PROBE_SRC and len(it["data"]) >= 2 and (it["data"][0] & 0x1F) == 0:
+                    self.last_seq[d][(it["pgn"], PROBE_SRC, it["dest"])] = it["data"][0] >> 5
                 if it["pgn"] == 129029 and it["src"] == PROBE_SRC and len(it["data"]) == 1 and (it["data"][0] & 0x1F) == 0:
                     self.rejected_seq[d][(129029, PROBE_SRC, it["dest"])] = it["data"][0] >> 5
                 try:
@@ -175,6 +175,19 @@ class World:
                 res.append(traffic.canon(traffic.feed(dec, {"kind": "single", "pgn": dd.pgn, "src": PROBE_SRC, "dest": 255, "data": bp.to_bytes(bn, "little")[:8]})))
             except Exception as e:
                 res.append(("error", type(e).__name__, str(e)))
+        # ... and complete fast-packet messages of multi-definition PGNs without fallback, with a fresh sequence counter
+        for key in ("130842/furunoSixDegreesOfFreedomMovement", "130850/simnetCommandApStandby", "130820/fusionPowerState"):
+            dd = canboat.db().by_key[key]
+            bp, bn, _ = gen.benign_payload(dd)
+            seq = (last_seq.get((dd.pgn, PROBE_SRC, 255), 6) + 1) % 8
+            r = None
+            for fr in wire.segment(bp.to_bytes(bn, "little"), seq):
+                try:
+                    r = traffic.feed(dec, {"kind": "fastframe", "pgn": dd.pgn, "src": PROBE_SRC, "dest": 255, "data": fr})
+                except Exception as e:
+                    r = ("error", type(e).__name__, str(e))
+                    break
+            res.append(traffic.canon(r) if not isinstance(r, tuple) else r)
         gp, gn, _ = gen.benign_payload(canboat.db().by_key["129029/gnssPositionData"])
         seq = (last_seq.get((129029, PROBE_SRC, 255), 6) + 1) % 8
         # a first frame that was rejected with an error has not used its counter: the probe may carry exactly that one
@@ -216,7 +229,7 @@ def run_case(n_dec, cfg_idx, oplist):
                 pass
         got = W.probe(dec, W.last_seq[di], W.rejected_seq[di])
         exp = W.probe(fresh, W.last_seq[di], W.rejected_seq[di])
-        for name, g, e in zip(("single", "multidef-65285", "multidef-65286", "fast"), got, exp):
+        for name, g, e in zip(("single", "multidef-65285", "multidef-65286", "multidef-fast-130842", "multidef-fast-130850", "multidef-fast-130820", "fast"), got, exp):
             if g != e:
                 out.append((f"C16|probe-{name}", f"decoder {di} (config {CONFIGS[cfg_idx[di]]}): {name} probe after the history = {str(g)[:120]}, on a fresh decoder = {str(e)[:120]}", case))
     if W.owned_problem:
